@@ -4,6 +4,7 @@ import (
 	"encoding/json"
 	"fmt"
 	"math/big"
+	"math/rand"
 	"strconv"
 	"strings"
 
@@ -144,11 +145,25 @@ func bi(s string) *big.Int {
 	return z
 }
 
+// dealAmount: small amounts, and (for funded cases) amounts of 30-45 bits, so that amount x rate (rates have up to 29 bits)
+// lies on both sides of 2^64
+func dealAmount(rng *rand.Rand, whale bool) *big.Int {
+	if !whale || rng.Intn(2) == 0 {
+		return big.NewInt(int64(rng.Intn(200)))
+	}
+	k := uint(30 + rng.Intn(16))
+	a := new(big.Int).Add(pow2(k), new(big.Int).Rand(rng, pow2(k)))
+	if rng.Intn(4) == 0 {
+		a = new(big.Int).Sub(pow2(k+1), big.NewInt(int64(1+rng.Intn(3)))) // all ones: the largest k+1-bit values
+	}
+	return a
+}
+
 func pow2(n uint) *big.Int { return new(big.Int).Lsh(big.NewInt(1), n) }
 
 func genC19(c *Ctx) error {
 	c.ShardSize = 8
-	c.Notes["rule"] = "each case: fresh chaincode; a fee setting (share 0..100%+1, floor, cap incl. 0, own/foreign currency with buyToken rate), optional fee address, rates and limits for buy/buy-back, genesis allowed balances; then 15-30 signed operations through real batches with amounts at the break points of the configuration (raw fee = floor, = cap, +-1; limit bounds +-1; exact balance, balance+1, balance minus fee; 2^64, 2^256). Observed: error class and the complete balance projection after every operation, token metadata and predictFee at the end. Non-trivial: at least one successful transfer with a positive fee or one successful buy/buy-back."
+	c.Notes["rule"] = "each case: fresh chaincode; a fee setting (share 0..100%+1, floor, cap incl. 0, own/foreign currency with buyToken rate), optional fee address, rates and limits for buy/buy-back, genesis allowed balances; then 15-30 signed operations through real batches with amounts at the break points of the configuration (raw fee = floor, = cap, +-1; limit bounds +-1; exact balance, balance+1, balance minus fee; 2^64, 2^256; in a third of the cases buy / buy-back amounts of 30-45 bits with funded parties, so that amount x rate lies on both sides of 2^64). Observed: error class and the complete balance projection after every operation, token metadata and predictFee at the end. Non-trivial: at least one successful transfer with a positive fee or one successful buy/buy-back."
 	n := c.N(160, 2500)
 	for i := 0; i < n; i++ {
 		if err := c19Case(c, i); err != nil {
@@ -175,6 +190,8 @@ func c19Case(c *Ctx, idx int) error {
 	}
 	users := []*Account{u1, u2, u3, u4}
 	iss, fs := w.Issuer, w.FeeSet
+	// large deals: amounts whose product with the rate is around and beyond 2^64 (the parties are funded for them)
+	whale := rng.Intn(3) == 0
 	// genesis allowed balances
 	for _, a := range append(users, iss, fa) {
 		for _, cur := range []string{"CURA", "CURB"} {
@@ -182,6 +199,9 @@ func c19Case(c *Ctx, idx int) error {
 				amt := big.NewInt(int64(rng.Intn(5000)))
 				if rng.Intn(10) == 0 {
 					amt = new(big.Int).Add(pow2(64), big.NewInt(int64(rng.Intn(1000))))
+				}
+				if whale && (a == iss || a == u1 || a == u3) {
+					amt = new(big.Int).Add(pow2(70), big.NewInt(int64(rng.Intn(1000))))
 				}
 				w.SetBalance("tt", balance.BalanceTypeAllowed, a.AddrString(), cur, amt)
 			}
@@ -244,6 +264,12 @@ func c19Case(c *Ctx, idx int) error {
 	}
 	if rng.Intn(8) == 0 {
 		cfg = append(cfg, c19Op{Kind: "emit", Sender: iss.N(), To: u2.N(), Amount: new(big.Int).Add(pow2(256), z(int64(rng.Intn(9))))})
+	}
+	if whale {
+		for _, a := range []*Account{iss, u1, u3} {
+			cfg = append(cfg, c19Op{Kind: "emit", Sender: iss.N(), To: a.N(), Amount: new(big.Int).Add(pow2(46), z(int64(rng.Intn(1000))))})
+		}
+		c.Count("cases_with_large_deals")
 	}
 	ops = append(ops, cfg...)
 
@@ -346,10 +372,10 @@ func c19Case(c *Ctx, idx int) error {
 			exec(c19Op{Kind: "transfer", Sender: s.N(), To: to.N(), Amount: amt})
 		case r < 80:
 			cur := []string{"CURA", "CURA", "CURB", "NOPE"}[rng.Intn(4)]
-			exec(c19Op{Kind: "buyToken", Sender: s.N(), Amount: z(int64(rng.Intn(200))), Cur: cur})
+			exec(c19Op{Kind: "buyToken", Sender: s.N(), Amount: dealAmount(rng, whale), Cur: cur})
 		case r < 92:
 			cur := []string{"CURA", "CURB", "CURB"}[rng.Intn(3)]
-			exec(c19Op{Kind: "buyBack", Sender: s.N(), Amount: z(int64(rng.Intn(200))), Cur: cur})
+			exec(c19Op{Kind: "buyBack", Sender: s.N(), Amount: dealAmount(rng, whale), Cur: cur})
 		case r < 95:
 			exec(c19Op{Kind: "setFee", Sender: fs.N(), Cur: []string{"TT", "CURA", "NOPE"}[rng.Intn(3)], A: z(shares[rng.Intn(len(shares))]), B: z(floors[rng.Intn(len(floors))]), C: z(caps[rng.Intn(len(caps))])})
 		case r < 98:
